@@ -1,6 +1,7 @@
 package props
 
 import (
+	"math"
 	"fmt"
 	"os"
 	"strconv"
@@ -61,8 +62,13 @@ func decodeDirBytes(b []byte, ic pmtiles.Compression) ([]pmtiles.EntryV3, bool) 
 }
 
 // certificate of an optimizeDirectories result: rootLen, decoded root, per-leaf (byte length, decoded entries)
+// lastSched: entry count, number of leaves and length of the first leaf of the latest optimizeDirectories run
+// (the leaf size the real loop settled on, when there are at least two leaves)
+var lastSched [3]int
+
 func optCertificate(es []pmtiles.EntryV3, budget int, ic pmtiles.Compression) (string, string) {
 	root, leaves, n := pmtiles.VerifOptimizeDirectories(es, budget, ic)
+	lastSched = [3]int{len(es), n, 0}
 	rootEntries, ok := decodeDirBytes(root, ic)
 	if !ok {
 		return "", "root does not decode"
@@ -88,9 +94,43 @@ func optCertificate(es []pmtiles.EntryV3, budget int, ic pmtiles.Compression) (s
 		if !ok {
 			return "", "leaf does not decode"
 		}
+		if lastSched[2] == 0 {
+			lastSched[2] = len(le)
+		}
 		fmt.Fprintf(&sb, " %d %s", p.Length, fmtEntries(le))
 	}
 	return sb.String(), ""
+}
+
+// f32Lines: the leaf size the real loop used (first of at least two leaves) against the bit-exact float32
+// schedule of the model, and the arithmetic of one growth step on the values around it
+func f32Lines(emit func(string)) {
+	if lastSched[1] >= 2 && lastSched[2] > 0 {
+		emit(fmt.Sprintf("f32sched %d %d", lastSched[0], lastSched[2]))
+	}
+}
+
+// goSchedule: is ls a member of 4096, int(4096*1.2), … in Go's own float32 arithmetic (the expression of
+// optimizeDirectories, re-evaluated here: this side of the line ties the MODEL's arithmetic to the compiler's)
+func goSchedule(n, ls int) string {
+	if n >= 14336000 {
+		return "unmodelled"
+	}
+	var leafSize float32
+	leafSize = float32(n) / 3500
+	if leafSize < 4096 {
+		leafSize = 4096
+	}
+	for i := 0; i < 400; i++ {
+		if int(leafSize) == ls {
+			return "on"
+		}
+		if int(leafSize) > ls {
+			return "off"
+		}
+		leafSize *= 1.2
+	}
+	return "off"
 }
 
 // entries for the end-to-end finalize run: incompressible id deltas and lengths, contiguous offsets (as a resolver produces them)
@@ -185,7 +225,22 @@ func (C05) Gen(r *core.Rng, tier string, emit func(string)) {
 				cert = "0 0 0 # " + strings.ReplaceAll(bad, " ", "_")
 			}
 			emit(fmt.Sprintf("optcheck %s %d %s C %s", compName(ic), b, fmtEntries(es), cert))
+			f32Lines(emit)
 		}
+	}
+	// one growth step on arbitrary float32 values from 4096 up to 2^63 (mantissas random, all-ones, ties)
+	for i := 0; i < 400; i++ {
+		exp := uint64(139 + r.Intn(51))
+		man := r.U64() % (1 << 23)
+		switch i % 8 {
+		case 0:
+			man = (1 << 23) - 1 - uint64(r.Intn(4))
+		case 1:
+			man = uint64(r.Intn(4))
+		case 2:
+			man = (r.U64() % (1 << 23)) &^ 0xfff // few significant bits: products that end in exact ties
+		}
+		emit(fmt.Sprintf("f32mul %d", exp<<23|man))
 	}
 	// tiny budgets on long scattered lists: the first leaf size (4096) gives a root of 8–25 pointers that
 	// does not fit, so the growth loop must run several rounds (a root of one pointer always fits: ≥ 64 bytes)
@@ -207,6 +262,7 @@ func (C05) Gen(r *core.Rng, tier string, emit func(string)) {
 			cert = "0 0 0 # " + strings.ReplaceAll(bad, " ", "_")
 		}
 		emit(fmt.Sprintf("optcheck %s %d %s C %s", compName(ic), b, fmtEntries(es), cert))
+		f32Lines(emit)
 	}
 	// short lists of FAT entries (sparse IDs, scattered offsets, long lengths: well over 8 bytes each, and nothing
 	// for gzip to find): whether a list fits the root is a matter of its bytes, not of its length
@@ -285,6 +341,16 @@ func (C05) RunGo(line string) string {
 			return "cert-differs-from-recorded"
 		}
 		return "ok"
+	case "f32mul":
+		b, _ := strconv.ParseUint(t[1], 10, 32)
+		x := math.Float32frombits(uint32(b))
+		y := x
+		y *= 1.2
+		return fmt.Sprintf("%d %d", math.Float32bits(y), int64(x))
+	case "f32sched":
+		n, _ := strconv.Atoi(t[1])
+		ls, _ := strconv.Atoi(t[2])
+		return goSchedule(n, ls)
 	case "finroot":
 		seed, _ := strconv.ParseUint(t[1], 10, 64)
 		n, _ := strconv.Atoi(t[2])
@@ -417,6 +483,8 @@ func (C05) Branch(line, goOut string) string {
 		return "optcheck " + t[1] + " " + sz
 	case "finroot", "finrootx":
 		return t[0] + " " + strings.SplitN(goOut, " ", 2)[0]
+	case "f32sched":
+		return "f32sched: leaf size of the real loop " + goOut + " the modelled float32 schedule"
 	}
 	return t[0]
 }
